@@ -535,7 +535,7 @@ def default_of(ex, ty):
     s = short_type(t)
     if s in ('String',): return string_of([])
     if s in ('Vec',): return VecV([], 'vec')
-    if s in ('BTreeMap', 'HashMap', 'HashSet', 'BTreeSet'): return Agg(s, 0, [VecV([], 'vec')])
+    if s in ('BTreeMap', 'HashMap', 'HashSet', 'BTreeSet', 'DashMap'): return Agg(s, 0, [VecV([], 'vec')])
     if s == 'Option': return none()
     if s == 'bool': return False
     if s == 'f64': return 0.0
@@ -752,7 +752,7 @@ def m_drop(ex, site, a):
     return unit()
 
 
-@model('mem::discriminant')
+@model('mem::discriminant', 'discriminant')
 def m_discr(ex, site, a):
     return Agg('Discriminant', 0, [ex.discriminant(deref(ex, a[0]))])
 
@@ -934,3 +934,31 @@ def m_panic(ex, site, a):
         except Exception:
             pass
     raise Panic('explicit', msg[:200] or site.key, ex.where())
+
+
+@model(rx(r'^<.* as (Fn|FnMut|FnOnce)>::(call|call_mut|call_once)$'))
+def m_fn_call(ex, site, a):
+    f = a[0]; args = a[1]
+    argv = list(args.fields) if isinstance(args, Agg) and args.ty == UNIT_TY else [args]
+    return ex.call_value(f, argv)
+
+
+@model('PartialEq::eq')
+def m_trait_eq(ex, site, a): return values_eq(ex, a[0], a[1])
+@model('PartialEq::ne')
+def m_trait_ne(ex, site, a): return znot(values_eq(ex, a[0], a[1]))
+
+
+def _trait_pcmp(ex, a, want):
+    c = values_cmp(ex, a[0], a[1], True)
+    return c is not None and c in want
+
+
+@model('PartialOrd::lt')
+def m_trait_lt(ex, site, a): return _trait_pcmp(ex, a, (-1,))
+@model('PartialOrd::le')
+def m_trait_le(ex, site, a): return _trait_pcmp(ex, a, (-1, 0))
+@model('PartialOrd::gt')
+def m_trait_gt(ex, site, a): return _trait_pcmp(ex, a, (1,))
+@model('PartialOrd::ge')
+def m_trait_ge(ex, site, a): return _trait_pcmp(ex, a, (0, 1))
